@@ -15,7 +15,7 @@
 From Coq Require Import List ZArith Bool Arith Reals.
 Import ListNotations.
 From FV.C10.gen Require Import FaceTables.
-From FV.C10 Require Import Model Groups ProofsTables ProofsGeom ProofsSurface ProofsClosed ProofsViews ProofsFistr.
+From FV.C10 Require Import Model Groups ProofsTables ProofsGeom ProofsSurface ProofsClosed ProofsViews ProofsFistr ProofsWf.
 
 (* every translated face table (tet, tet2, pyr, prism, hex; hexprism too) is
    closed: each directed edge occurs once and its reverse once; indices are in
@@ -82,6 +82,20 @@ Proof.
   unfold all_faces in H. apply in_flat_map in H. exact H.
 Qed.
 
+(* oriented outwards, at mesh level: a surface face has exactly one owner, is
+   one of the owner's faces in table orientation, and points away from the
+   owner's vertex mean whenever the owner is a convex cell (cell_outward: the
+   vertex mean is strictly inside every face plane; C10_table_outward shows
+   this for every positively oriented affine image of a reference element) *)
+Theorem C10_surface_outward :
+  forall (pos : Z -> RV3) m, wf_mesh m = true ->
+  forall f, In f (surface_sorted m) ->
+    exists e, owners f m = [e] /\ In f (elem_faces e)
+              /\ (cell_outward pos e -> (0 < odotR pos e f)%R).
+Proof.
+  intros pos m H f Hf. apply surface_sorted_In in Hf. apply (surface_outward pos m H f Hf).
+Qed.
+
 (* surface mesh object, positions returned by extract_surface and the OBJ
    text describe the same face set; an OBJ file read back gives the same
    vertices and faces *)
@@ -128,6 +142,12 @@ Theorem C10_fistr_numbers_match :
   map (fun nf => (fst nf, sort_nat (snd nf))) tbl_fistr
   = combine (seq 1 4) (map sort_nat (table Tet)).
 Proof. exact fistr_numbers_match. Qed.
+
+(* the wf_mesh clause "no element lists two faces on one node set" follows from
+   "the nodes of an element are pairwise different" *)
+Theorem C10_wf_from_nodup : forall t c,
+  length c = arity t -> nodupZ c = true -> distinct_keys same_face (faces_of t c) = true.
+Proof. exact nodup_conn_distinct_keys. Qed.
 
 (* non-vacuity: two tetrahedra glued along a face, ids sparse and unsorted *)
 Definition ex_mesh : mesh :=
